@@ -1,6 +1,6 @@
 (* Check functions evaluated (vm_compute) on the case files the harness writes for C06:
    implementation results are recorded in the case, the model is run here and compared. *)
-Require Import Cirbo.Model.Base Cirbo.Model.Gate Cirbo.Model.Den Cirbo.Model.Circuit Cirbo.Model.History.
+Require Import Cirbo.Model.Base Cirbo.Model.Gate Cirbo.Model.Den Cirbo.Model.Circuit Cirbo.Model.History Cirbo.Model.Eval.
 Require Import Cirbo.Model.Search Cirbo.Model.SearchCircuit Cirbo.Generated.SearchTables.
 Local Open Scope nat_scope.
 
@@ -12,10 +12,21 @@ Definition check_cnf_case (c : cnf_case) : bool :=
 (* (spec, variables true in the model list, what _get_circuit_by_model returned / raised,
     verdict of the Python validity checker on that circuit when it was built) *)
 Definition decode_case : Type := (spec * list var * res circuit * option bool)%type.
+(* the typed evaluation `tvalue` (by den) against the shared circuit evaluator (Model/Eval.v, the
+   model of Circuit.get_truth_table that C01 ties to the semantics) on the built Circuit *)
+Definition truth_table_agrees (sp : spec) (tc : tckt) : bool :=
+  match build_circuit (sp_n sp) tc with
+  | Ok circ =>
+      res_eqb (all_eqb (all_eqb st_beq)) (get_truth_table circ)
+        (Ok (map (fun o => map (fun t => inj (tvalue (sp_n sp) (tc_gates tc) t o)) (rows sp)) (tc_outs tc)))
+  | Err _ => true
+  end.
+
 Definition check_decode_case (c : decode_case) : bool :=
   let '(sp, trues, expected, verdict) := c in
   let s := asg_of trues in
   res_eqb circuit_eqb (do tc <- decode_typed tt_to_gate_type sp s; build_circuit (sp_n sp) tc) expected
+  && match decode_typed tt_to_gate_type sp s with Ok tc => truth_table_agrees sp tc | Err _ => true end
   && match verdict with
      | None => true
      | Some b => Bool.eqb (match decode sp s with Ok ck => validb sp ck | Err _ => false end) b
